@@ -232,6 +232,41 @@ def _arith(op, a, b, node=None):
 # a small exact model of numpy arrays: nested python lists; a row taken by
 # an integer index shares its list with the parent (a view, as in numpy)
 
+# A basic slice of a vector is a VIEW in numpy: a store through it reaches the
+# parent and the other way round.  The model keeps, for every list made by
+# slicing a list of scalars, the parent and the positions it was cut from;
+# every scalar store goes through `_put`, which follows these links in both
+# directions.  (Index arrays and masks give copies, as in numpy.)  The
+# registries hold the lists themselves, so an id is never reused while it is
+# registered; `reset_views` drops them between two evaluations.
+_VIEW_OF = {}     # id(view list) -> (view list, parent list, positions)
+_VIEWS_ON = {}    # id(parent list) -> [(view list, positions)]
+
+
+def reset_views():
+    _VIEW_OF.clear()
+    _VIEWS_ON.clear()
+
+
+def _link(view, parent, positions):
+    _VIEW_OF[id(view)] = (view, parent, positions)
+    _VIEWS_ON.setdefault(id(parent), []).append((view, positions, parent))
+
+
+def _put(x, i, v, source=None):
+    """x[i] = v, carried on to the lists x is a view of / that view x"""
+    x[i] = v
+    if not _VIEW_OF and not _VIEWS_ON:
+        return
+    i = i % len(x)
+    up = _VIEW_OF.get(id(x))
+    if up is not None and up[1] is not source:
+        _put(up[1], up[2][i], v, x)
+    for view, positions, _ in _VIEWS_ON.get(id(x), ()):
+        if view is not source and i in positions:
+            _put(view, positions.index(i), v, x)
+
+
 class Arr:
     def __init__(self, d):
         self.d = d
@@ -300,11 +335,28 @@ class Arr:
                 except IndexError:
                     raise Raised(node)
             if isinstance(k, slice):
+                if not rest and x and not any(isinstance(y, list)
+                                              for y in x):
+                    new = x[k]                  # a view of a vector
+                    _link(new, x, list(range(len(x))[k]))
+                    return new
                 return [rec(y, rest) for y in x[k]]
             if isinstance(k, Arr):
                 fl = k.d
                 if any(isinstance(v, list) for v in fl):
-                    raise Unsupported('index array of rank > 1')
+                    # integer index array of rank > 1: the result has the
+                    # shape of the index (numpy "fancy" indexing)
+                    def fancy(ix):
+                        if isinstance(ix, list):
+                            return [fancy(i) for i in ix]
+                        if isinstance(ix, bool) or not isinstance(ix, int):
+                            raise Unsupported('index array of rank > 1 that '
+                                              'is not made of integers')
+                        try:
+                            return rec(x[ix], rest)
+                        except IndexError:
+                            raise Raised(node)
+                    return fancy(fl)
                 if fl and all(isinstance(v, bool) for v in fl):
                     if len(fl) != len(x):
                         raise Raised(node)
@@ -339,13 +391,13 @@ class Arr:
                     else:
                         if isinstance(y, list):
                             raise Raised(node)
-                        x[i] = y
+                        _put(x, i, y)
             else:
                 for i in range(len(x)):
                     if isinstance(x[i], list):
                         fill(x[i], v)
                     else:
-                        x[i] = v
+                        _put(x, i, v)
 
         def rec(x, ks, v):
             k, rest = ks[0], ks[1:]
@@ -365,10 +417,14 @@ class Arr:
                         if len(v.flat()) != 1:
                             raise Raised(node)
                         v = v.flat()[0]
-                    x[k] = v
+                    _put(x, k, v)
                 return
             if isinstance(k, slice) and not rest:
                 idx = list(range(len(x)))[k]
+                if isinstance(v, Arr):
+                    if len(v.d) == 1 and len(idx) != 1 and not isinstance(
+                            v.d[0], list):
+                        v = v.d[0]              # a length-1 vector broadcasts
                 if isinstance(v, Arr):
                     if len(v.d) != len(idx):
                         raise Raised(node)
@@ -376,22 +432,64 @@ class Arr:
                         if isinstance(x[i], list):
                             fill(x[i], Arr(y) if isinstance(y, list) else y)
                         else:
-                            x[i] = y
+                            if isinstance(y, list):
+                                raise Raised(node)
+                            _put(x, i, y)
                 else:
                     for i in idx:
                         if isinstance(x[i], list):
                             fill(x[i], v)
                         else:
-                            x[i] = v
+                            _put(x, i, v)
+                return
+            if isinstance(k, slice):
+                # rows k, each stored into through the remaining indices; a
+                # matrix value is dealt out row by row, anything else goes
+                # to every row
+                idx = list(range(len(x)))[k]
+                tnd = sum(isinstance(q, slice) for q in ks) + \
+                    _depth(x) - len(ks)         # rank of the region stored to
+                vnd = _depth(v.d) if isinstance(v, Arr) else 0
+                if vnd > tnd or any(isinstance(q, (Arr, list))
+                                    for q in rest):
+                    raise Unsupported('store of rank %d into a region of '
+                                      'rank %d' % (vnd, tnd))
+                if vnd == tnd and len(v.d) != 1:
+                    if len(v.d) != len(idx):
+                        raise Raised(node)
+                    for i, y in zip(idx, v.d):
+                        rec(x[i], rest, Arr(y) if isinstance(y, list) else y)
+                else:
+                    if vnd == tnd:
+                        v = Arr(v.d[0]) if isinstance(v.d[0], list) \
+                            else v.d[0]
+                    for i in idx:
+                        rec(x[i], rest, v)
                 return
             if isinstance(k, Arr) and not rest:
                 fl = k.d
+                if any(isinstance(m, list) for m in fl):
+                    raise Unsupported('store through an index array of '
+                                      'rank > 1')
                 if fl and all(isinstance(m, bool) for m in fl):
+                    if len(fl) != len(x):
+                        raise Raised(node)
                     idx = [i for i, m in enumerate(fl) if m]
                 else:
                     idx = list(fl)
+                if isinstance(v, Arr) and len(v.d) != len(idx):
+                    raise Raised(node)
                 for j, i in enumerate(idx):
-                    x[i] = v.d[j] if isinstance(v, Arr) else v
+                    try:
+                        x[i]
+                    except (IndexError, TypeError):
+                        raise Raised(node)
+                    if isinstance(x[i], list):
+                        fill(x[i], Arr(v.d[j]) if isinstance(v, Arr) and
+                             isinstance(v.d[j], list) else
+                             (v.d[j] if isinstance(v, Arr) else v))
+                    else:
+                        _put(x, i, v.d[j] if isinstance(v, Arr) else v)
                 return
             raise Unsupported('array store index %r' % (k,))
         rec(self.d, keys, val)
@@ -400,7 +498,13 @@ class Arr:
         """in-place replacement of the contents (augmented assignment)"""
         if not isinstance(other, Arr) or other.shape != self.shape:
             raise Unsupported('in-place update changes the shape')
-        self.d[:] = other.copy().d
+        def rec(x, y):
+            for i in range(len(x)):
+                if isinstance(x[i], list):
+                    rec(x[i], y[i])
+                else:
+                    _put(x, i, y[i])
+        rec(self.d, other.copy().d)
 
     def __repr__(self):
         return 'Arr(%r)' % (self.d,)
@@ -546,6 +650,21 @@ def _cumsum(x):
     return Arr(out)
 
 
+def _diff(x, n=1, axis=-1, prepend=None, append=None):
+    x = _to_arr(x)
+    if not isinstance(x, Arr) or _depth(x.d) != 1 or n != 1 or \
+            axis not in (-1, 0):
+        raise Unsupported('diff of something else than a vector')
+    v = list(x.d)
+    for extra, front in ((prepend, True), (append, False)):
+        if extra is None:
+            continue
+        e = _to_arr(extra)
+        e = e.flat() if isinstance(e, Arr) else [e]
+        v = e + v if front else v + e
+    return Arr([_arith(ast.Sub(), q, p) for p, q in zip(v, v[1:])])
+
+
 def _arange(*a):
     if not all(isinstance(v, int) and not isinstance(v, bool) for v in a):
         raise Unsupported('arange of non-integers')
@@ -629,7 +748,7 @@ MODELS = {
     'array': lambda x, **k: _to_arr(x),
     'asarray': lambda x, **k: x if isinstance(x, Arr) else _to_arr(x),
     'copy': lambda x: _to_arr(x),
-    'cumsum': _cumsum, 'arange': _arange, 'where': _where,
+    'cumsum': _cumsum, 'arange': _arange, 'where': _where, 'diff': _diff,
     'nonzero': lambda c: _where(c),
     'flatnonzero': lambda c: _where(Arr(_to_arr(c).flat()))[0],
     'count_nonzero': _count_nonzero, 'sum': _sum,
@@ -1028,6 +1147,12 @@ class NEval(FD.Evaluator):
                 if isinstance(key, int):
                     self.stores[(id(base.d), key % max(len(base.d), 1))] = \
                         (self.cur, tuple(self.trail[-3:]))
+                elif isinstance(key, tuple) and len(key) == 2 and all(
+                        isinstance(k, int) and not isinstance(k, bool)
+                        for k in key) and isinstance(base.d[key[0]], list):
+                    row = base.d[key[0]]        # (row, column) of a matrix
+                    self.stores[(id(row), key[1] % max(len(row), 1))] = \
+                        (self.cur, tuple(self.trail[-3:]))
             elif isinstance(base, dict):
                 base[self._hashable(key)] = val
             elif isinstance(base, list):
@@ -1347,6 +1472,7 @@ def run(ctx):
     n_eval = 0
     for pos, kinds in scen:
         m = Model(pos, kinds)
+        reset_views()
         ev = NEval(m.attrs, fi.params[0], fi.mod, cls, fuel=400000)
         try:
             got = ev._user(fi.node, [_Self()], {}, fi.node)
